@@ -776,6 +776,9 @@ class AnimalSpecies:
 
         NE_required = self.NE_balance.kcals
         if NE_required == 0:
+            # nothing is required (e.g. the herd has died out): everyone there is counts as fed,
+            # rather than keeping the count of an earlier month
+            self.population_fed = self.current_population
             return grass_input, feed_input
 
         # Calculate NE from grass, if ruminant, else 0
